@@ -1,7 +1,7 @@
 """C19  Reported statistics and presence are true; connection slots do not leak."""
 import sys
 from props.common import run_property
-import props.oper, props.life  # noqa
+import props.oper, props.life, props.reg  # noqa
 
 PROP = 'C19'
 
@@ -35,6 +35,10 @@ def make_cases(tier, profile):
     for dm in ({}, {'invisible': True}, {'local_oper': True}, {'invisible': True, 'wallops': True}):
         cases.append(dict(name=f'USER completes registration (counters, default modes {sorted(dm)})', line='USER dave 0 * :Real', judges=['no_panic', 'inv'],
                           spec=dict(base, default_user_modes=dm), conn=dict(registered=False, nick='dave')))
+    # presence stays true when somebody else's registration onto a taken nick is refused and that connection then ends
+    for l in ['USER dave 0 * :Real', 'CAP END']:
+        cases.append(dict(name=f'{l}: refused registration on a taken nick, then teardown (presence)', line=l, judges=['no_panic', 'inv', 'ownership'], spec=base,
+                          conn=dict(registered=False, nick='bob', **({'name': 'dave'} if l == 'CAP END' else {})), then=['remove_user']))
     if tier != 'quick':
         # every pair of counter mutators in sequence; four users; LUSERS / ISON after each mutator
         muts = ['MODE alice +i', 'MODE alice -i', 'MODE alice -o', 'MODE alice -O', 'MODE alice +o', 'OPER opname goodpw', 'NICK zed', 'MODE alice +iw', 'AWAY :gone', 'JOIN #new']
